@@ -790,3 +790,133 @@ func FieldOf(v ssa.Value) (owner, field string, ok bool) {
 	}
 	return "", "", false
 }
+
+// ---------------------------------------------------------------------------------
+// loops known to execute at least once
+
+// NonEmptyRangeLoops returns, for every `for range s` loop over a slice whose length
+// was tested non-zero on a dominating edge (`if len(s) == 0 { return }`), the loop
+// header and its exit block.  Such a loop's exit edge is infeasible before the body
+// has run once.
+func NonEmptyRangeLoops(fn *ssa.Function) map[*ssa.BasicBlock]*ssa.BasicBlock {
+	out := map[*ssa.BasicBlock]*ssa.BasicBlock{}
+	for _, h := range fn.Blocks {
+		if h.Comment != "rangeindex.loop" || len(h.Succs) != 2 || len(h.Instrs) == 0 {
+			continue
+		}
+		ifi, ok := h.Instrs[len(h.Instrs)-1].(*ssa.If)
+		if !ok {
+			continue
+		}
+		bo, ok := ifi.Cond.(*ssa.BinOp)
+		if !ok || bo.Op != token.LSS {
+			continue
+		}
+		lenCall, ok := bo.Y.(*ssa.Call)
+		if !ok {
+			continue
+		}
+		bi, ok := lenCall.Call.Value.(*ssa.Builtin)
+		if !ok || bi.Name() != "len" {
+			continue
+		}
+		s := lenCall.Call.Args[0]
+		// dominating guard len(s) == 0 → other edge dominates h
+		for _, b := range fn.Blocks {
+			if len(b.Instrs) == 0 {
+				continue
+			}
+			gi, ok := b.Instrs[len(b.Instrs)-1].(*ssa.If)
+			if !ok {
+				continue
+			}
+			gb, ok := gi.Cond.(*ssa.BinOp)
+			if !ok {
+				continue
+			}
+			gl, ok := gb.X.(*ssa.Call)
+			if !ok {
+				continue
+			}
+			gbi, ok := gl.Call.Value.(*ssa.Builtin)
+			if !ok || gbi.Name() != "len" || gl.Call.Args[0] != s {
+				continue
+			}
+			z, isC := ConstInt(gb.Y)
+			if !isC || z != 0 {
+				continue
+			}
+			var nonEmptyEdge *ssa.BasicBlock
+			switch gb.Op {
+			case token.EQL:
+				nonEmptyEdge = b.Succs[1]
+			case token.NEQ, token.GTR:
+				nonEmptyEdge = b.Succs[0]
+			}
+			if nonEmptyEdge != nil && edgeDominates([2]*ssa.BasicBlock{b, nonEmptyEdge}, h) {
+				out[h] = h.Succs[1]
+			}
+		}
+	}
+	return out
+}
+
+// MustPrecedeLA is MustPrecede that knows non-empty range loops: the exit edge of such
+// a loop is not followed until its body has been entered on the current path.
+func MustPrecedeLA(fn *ssa.Function, target ssa.Instruction, cuts []ssa.Instruction) (bool, int) {
+	loops := NonEmptyRangeLoops(fn)
+	if len(loops) == 0 {
+		return MustPrecede(fn, target, cuts)
+	}
+	isCut := map[ssa.Instruction]bool{}
+	for _, c := range cuts {
+		isCut[c] = true
+	}
+	hdrIdx := map[*ssa.BasicBlock]uint{}
+	for h := range loops {
+		hdrIdx[h] = uint(len(hdrIdx))
+	}
+	type st struct {
+		b    *ssa.BasicBlock
+		mask uint64
+	}
+	seen := map[st]bool{}
+	work := []st{{fn.Blocks[0], 0}}
+	explored := 0
+	for len(work) > 0 {
+		s := work[len(work)-1]
+		work = work[:len(work)-1]
+		if seen[s] {
+			continue
+		}
+		seen[s] = true
+		explored++
+		stopped := false
+		for _, in := range s.b.Instrs {
+			if in == target {
+				return false, explored
+			}
+			if isCut[in] {
+				stopped = true
+				break
+			}
+		}
+		if stopped {
+			continue
+		}
+		for i, succ := range s.b.Succs {
+			m := s.mask
+			if exit, isHdr := loops[s.b]; isHdr {
+				bit := uint64(1) << hdrIdx[s.b]
+				if succ == exit && i == 1 && m&bit == 0 {
+					continue // exit before first iteration: infeasible
+				}
+				if i == 0 {
+					m |= bit
+				}
+			}
+			work = append(work, st{succ, m})
+		}
+	}
+	return true, explored
+}
